@@ -33,9 +33,12 @@ TAGS = {
     "sqlite_error": ["sqlite3.OperationalError", "sqlite3.Error", "sqlite3.IntegrityError"],
     "sqlite_other": ["sqlite3.connect", "sqlite3.Connection", "sqlite3.dbapi2.Error", "sqlite3.Row"],
     "foreign_ns": ["os.system", "subprocess.Popen", "subprocess.CalledProcessError", "json.JSONDecodeError", "shutil.SameFileError", "socket.socket",
-                   "colorsys.Error", "decimal.Decimal", "collections.OrderedDict", "zlib.error", "ssl.SSLError", "importlib.import_module"],
+                   "colorsys.Error", "decimal.Decimal", "collections.OrderedDict", "zlib.error", "ssl.SSLError", "importlib.import_module",
+                   b"os.system", b"subprocess.Popen"],
     "nodot": ["system", "Popen", "Local", "URI"],
     "float_pseudo": ["float"],
+    "falsy": ["", None, 0, False, b"", []],
+    "nonstring": [5, 1.5, True, ["builtins.ValueError"], ("Pyro5.core.URI",), {"a": 1}],
     "testlocal": ["harness.props.c04.Local", "tests.test_serialize.Something", "c04.Local"],
     "pyro_internal_other": ["Pyro5.server.DaemonObject", "Pyro5.core.resolve", "Pyro5.nameserver.NameServer", "Pyro5.client.BatchProxy",
                             "Pyro5.socketutil.SocketConnection", "Pyro5.server.serve", "Pyro5.client.SerializedBlob", "Pyro5.core.locate_ns"],
@@ -107,6 +110,26 @@ def tagged(tag, flagged, body, tagclass, rng):
         d["state"] = rng.choice([[1, 2], ["PYRO", "o", None, "h", "notaport", 6, 7], ["not a uri", 1, 2, 3, 4, 5], [None] * 6, [["x"]] * 5])
         d["value"] = "1e400"
         d["exception"] = {"__class__": "Pyro5.core._ExceptionWrapper", "exception": {"__class__": "subprocess.Popen", "args": [["true"]]}}
+    elif body in ("proxy_members", "proxy_in_state"):
+        # a Proxy contacts its daemon as soon as it is iterated or asked for an attribute: rebuilt members of this kind must never be
+        # treated as the list / dict / text the decoder expects there
+        # (no metadata in its state: the first attribute access makes it connect)
+        px = {"__class__": "Pyro5.client.Proxy", "state": ["PYRO:obj@localhost:1", [], [], [], "hello", None]}
+        if body == "proxy_members":
+            which = rng.randrange(5)
+            d["args"] = px if which in (0, 4) else ["m"]
+            d["attributes"] = px if which in (1, 4) else {}
+            d["state"] = px if which in (2, 4) else valid_state.get(tagclass, [])
+            d["exception"] = px if which in (3, 4) else {"__class__": "KeyError", "__exception__": True, "args": ["k"], "attributes": {}}
+            d["value"] = px if which == 4 else "1"
+        else:
+            base = list(valid_state.get(tagclass, ["PYRO", "obj", None, "host", 1234]))
+            k = rng.randrange(len(base)) if base else 0
+            if base:
+                base[k] = px
+            d["state"] = base or [px]
+            d["args"] = [px]
+            d["attributes"] = {"p": px}
     elif body == "nested_tag_in_args":
         d["args"] = [{"__class__": "Pyro5.core.URI", "state": ["PYRO", "obj", None, "host", 1234]}]
         d["attributes"] = {"u": {"__class__": "Pyro5.core.URI", "state": ["PYRO", "obj", None, "host", 1234]}}
@@ -203,8 +226,8 @@ def run(ctx):
                        "each serializer is warmed up (incl. the lazy sqlite3 import) before the monitor is armed"]
     tlc.mc(ctx, "ClassTag", cfg="MC_ClassTag.cfg")
     cases = tlc.gen(ctx, "Gen_ClassTag", cfg="Gen_ClassTag.cfg")
-    if len(cases) != 3600:
-        raise util.MachineryError("expected 3600 cases, got %d" % len(cases))
+    if len(cases) != 27 * 2 * 9 * 10:
+        raise util.MachineryError("expected %d cases, got %d" % (27 * 2 * 9 * 10, len(cases)))
     sys.addaudithook(hook)
     rng = random.Random(ctx.seed + 4)
     sers = sorted(serializers.serializers.items())
@@ -225,7 +248,7 @@ def run(ctx):
     for i, c in enumerate(cases):
         tags = TAGS[c["tag"]]
         dangerous = c["tag"] in ("foreign_ns", "builtins_nonexc_class", "builtins_function", "bare_nonexc", "sqlite_other", "pyro_internal_other",
-                                 "errors_other", "testlocal")
+                                 "errors_other", "testlocal", "falsy", "nonstring")
         for j in range(len(tags) if (dangerous and c["flagged"] and c["body"] in ("plain_args", "empty_args", "one_str_arg")
                                      and c["pos"] in ("top", "in_list", "in_wrapper")) else min(ntags, len(tags))):
             jobs.append((c, tags[(i + j) % len(tags)], False))
@@ -262,14 +285,48 @@ def run(ctx):
                     built.add("OTHER:harness.Local")
                 newmods = sorted(m for m in set(sys.modules) - before)
                 tr = {"tag": c["tag"], "flagged": c["flagged"], "registered": registered, "ser": name, "path": path, "pos": c["pos"], "body": c["body"],
-                      "concrete": tag, "outcome": outcome, "built": sorted(built), "audit": sorted(set(AUDIT)), "newmods": newmods,
+                      "concrete": tag if isinstance(tag, str) else repr(tag), "outcome": outcome, "built": sorted(built), "audit": sorted(set(AUDIT)), "newmods": newmods,
                       "converter_called": bool(conv_called), "converts": c["pos"] in CONVERTING or name == "msgpack",
                       "outer": {"as_exception_arg": ["BuiltinException"], "as_exception_attribute": ["PyroError"], "in_wrapper": ["ExcWrapper"],
-                                "as_state_member": ["URI"]}.get(c["pos"], [])}
+                                "as_state_member": ["URI"]}.get(c["pos"], []) + (["Proxy", "URI"] if c["body"].startswith("proxy_") else [])}
                 if outcome == "error":
                     tr["exc"] = exc
                 traces.append(tr)
     serializers.SerializerBase.unregister_dict_to_class("harness.Registered")
+    # life cycle of an application converter: registered through one entry point, withdrawn through another; while registered every
+    # serializer hands the tag to it, once withdrawn every serializer rejects the tag again
+    import Pyro5.api as api
+    entries = [("base", serializers.SerializerBase), ("api", None)] + [(n, type(sr)) for n, sr in sers]
+    for rname, rcls in entries:
+        for uname, ucls in entries:
+            tagname = "harness.Lifecycle"
+            conv = lambda cn, d: conv_called.append(1) or Local()       # noqa: E731
+            (api.register_dict_to_class if rcls is None else rcls.register_dict_to_class)(tagname, conv)
+            for phase in ("registered", "withdrawn"):
+                if phase == "withdrawn":
+                    (api.unregister_dict_to_class if ucls is None else ucls.unregister_dict_to_class)(tagname)
+                payload = place({"__class__": tagname, "x": 1}, "in_list")
+                for name, ser in sers:
+                    del conv_called[:]
+                    del Local.created[:]
+                    built = set()
+                    try:
+                        res = ser.loads(ser.dumps(payload))
+                        outcome = "value"
+                        census(res, built, set(), mods)
+                    except Exception as x:
+                        outcome, exc = "error", type(x).__name__
+                    if Local.created and phase == "withdrawn":
+                        built.add("OTHER:harness.Local")
+                    traces.append({"tag": "testlocal", "flagged": False, "registered": phase == "registered", "ser": name, "path": "loads", "pos": "in_list",
+                                   "body": "lifecycle:%s>%s" % (rname, uname), "concrete": tagname, "outcome": outcome, "built": sorted(built), "audit": [],
+                                   "newmods": [], "converter_called": bool(conv_called), "converts": True, "outer": []})
+            # leave nothing behind, whatever the entry points did
+            for _, c2 in entries:
+                try:
+                    (api.unregister_dict_to_class if c2 is None else c2.unregister_dict_to_class)(tagname)
+                except Exception:
+                    pass
     honoured = {"uri", "proxy", "daemon", "util_known", "errors_pyro", "struct_error", "exc_wrapper"}
     for tr in traces:
         ctx.count(json.dumps([tr["concrete"], tr["flagged"], tr["ser"], tr["path"], tr["pos"], tr["body"]]) if tr["tag"] not in honoured else None)
